@@ -6,7 +6,7 @@ import ast
 from sa.engine.cfg import exc_name
 from sa.engine.facts import Bad, F
 from sa.engine.pattern import P, u, dump, find_all
-from sa.engine.source import norm, own_walk
+from sa.engine.source import norm, own_walk, stmt_of
 from .common import A, TASKS
 
 EXPLANATION = ("Task group join: the emptiness test of the live-task set is the last suspension-free thing before the group's scope is "
@@ -341,3 +341,13 @@ def check(ctx):
     # ---- R01-j (shared with C07/R07-f, C12/R12-g)
     from .common import waiter_guard
     waiter_guard(ctx, "R01-j", "the delivery loop that the join relies on asks `.done()` only of a waiter that is an asyncio.Future (any other awaitable a child is suspended on would make cancel() raise out of __aexit__ before the join)")
+
+    # ---- R01-k nothing user-defined is evaluated between "the block ended" and the join: the group cancels its scope with no argument
+    # or a constant one (formatting the body's / a child's exception into a cancel reason runs its __str__/__repr__, and an exception
+    # from there leaves __aexit__ / the done-callback before the children were cancelled and joined)
+    for f_ in (aexit, done):
+        for c_, env_ in ctx.sites(f_, "self.cancel_scope.cancel($*A)"):
+            args_ = list(c_.args) + [k_.value for k_ in c_.keywords]
+            ok = all(isinstance(a_, ast.Constant) for a_ in args_)
+            ctx.ob("R01-k", f_, "the group's scope is cancelled without evaluating user-defined code", ok, node=stmt_of(c_),
+                   detail="" if ok else f"`{norm(stmt_of(c_))}` evaluates an expression over the exception before the join", by=("constant arguments",))
